@@ -70,18 +70,24 @@ pub fn round(rep: &mut Reporter, rng: &mut Rng) {
                 for h in hs {
                     match tokio::time::timeout(Duration::from_secs(60), h).await {
                         Ok(Ok(c)) => calls.push(c),
-                        _ => return None,
+                        Ok(Err(e)) if e.is_panic() => return Some(Err("task-panicked")),
+                        _ => return Some(Err("timeout")),
                     }
                 }
             }
             let (log, runaway) = prov.snapshot();
-            Some((calls, log, runaway, wave2_start))
+            Some(Ok((calls, log, runaway, wave2_start)))
         })
     });
     rep.count("stress_rounds");
     let (calls, log, _runaway, wave2_start) = match res {
-        Ok(Some(x)) => x,
-        Ok(None) => {
+        Ok(Some(Ok(x))) => x,
+        Ok(Some(Err("task-panicked"))) => {
+            rep.eval();
+            rep.violation("panic", "stress|task-panicked", scn.to_json(), json!("no panic"), json!("a spawned caller task panicked"));
+            return;
+        }
+        Ok(_) => {
             rep.inconclusive("stress: a spawned caller did not finish within 60 s of real time");
             return;
         }
